@@ -179,7 +179,9 @@ pub fn code_cons(push_state: &mut PushState, _instruction_cache: &InstructionCac
                         consblock.push_vec(vec)
                     }
                 }
-                _ => (),
+                _ => {
+                    consblock.push(pv[i].clone());
+                }
             }
         }
         push_state.code_stack.push(Item::List { items: consblock });
